@@ -27,6 +27,8 @@ structure HCtx where
   cur : St := emptyState false
   c03Exempt : Bool := false
   lastLoc : Option (Pt × String) := none
+  /-- step and answer of the last `nn` operation (the next hint of a `LastUsedVertexHintGenerator`) -/
+  lastNN : Option (Nat × Nat) := none
   ended : Bool := false
   /-- a dumped state already violated a structural / Delaunay spec: everything later in this
   history is a consequence and is not judged (the violation itself has been reported) -/
@@ -380,8 +382,19 @@ def judge (h : HCtx) (op res : Array String) (dump : Option St) : HCtx × List F
             if closer.isEmpty then "localmin"
             else if closer.all (fun e => (dv - dist2 (s.B e) q) * 2 ^ pbits ≤ dv) then "plateau"
             else "early"
-        (h, chk (decide (s.NearestOK q slack r)) "C15" "nearest-neighbor-not-minimal"
-          (fun _ => s!"class={cls ()} q={q} answer={res.toList}"))
+        -- R3: two consecutive `nearest_neighbor` calls with the last-used-vertex hint generator:
+        -- the second walk starts at the answer of the first; the walk model (first out-neighbour
+        -- that is strictly closer, exact on the integer families) must stop at the same vertex
+        let fm := match h.lastNN, r with
+          | some (st, u), some v =>
+            if st + 1 == h.step && h.hint == "last" && exactFam h.fam && u < s.nV then
+              chk (s.nnWalkM q (s.nV * s.nV + 4) u == v) "C15:model" "nn-walk-model-differs"
+                (fun _ => s!"q={q} start={u} impl={v} model={s.nnWalkM q (s.nV * s.nV + 4) u}")
+            else []
+          | _, _ => []
+        ({ h with lastNN := r.map fun v => (h.step, v) },
+          chk (decide (s.NearestOK q slack r)) "C15" "nearest-neighbor-not-minimal"
+            (fun _ => s!"class={cls ()} q={q} answer={res.toList}") ++ fm)
       | none => bad "result"
     | none => bad "args"
   | "hull" =>
